@@ -317,6 +317,8 @@ def abstract(snippet):
     head (`x(`, `x!`, `x::`) nor `self` become `$` — renaming a local variable or parameter does not change the shape."""
     out = []
     sn = norm(snippet)
+    # `x.expect("why")` and `x.unwrap()` assert the same thing: one shape (the message is not part of what can panic)
+    sn = re.sub(r'\.expect\((?:"(?:[^"\\]|\\.)*"?)?', '.unwrap(', sn)
     for m in re.finditer(r'"(?:[^"\\\\]|\\\\.)*"?|[A-Za-z_][A-Za-z0-9_]*|.', sn):
         t = m.group(0)
         if t.startswith('"'):
